@@ -454,6 +454,8 @@ def eval_case(case):
     cl.add("level:%s" % ["safe", "full", "unsafe"][level])
     if len(roots) > 1:
         cl.add("docs=2")
+    if len(roots) > 2:
+        cl.add("docs=3")
     failures = []
     evals = 0
     budget = 20000 + 4000 * len(text)
@@ -572,6 +574,25 @@ def wellformed_cases():
     return st.tuples(st.lists(graphs(), min_size=1, max_size=2), st.booleans(), st.none())
 
 
+def stateful_then_recursive_cases():
+    """A document whose instance (plain or with __setstate__) holds one anchored container twice, followed by a document that is
+    a self-referential collection: what the construction of one document leaves behind must not reach the next."""
+    scalar = st.tuples(st.just("s"), st.sampled_from([False, False, True]))
+    skey = st.tuples(st.just("s"), st.just(False))
+    shared = st.one_of(st.tuples(st.just("q"), st.just(True), st.lists(scalar, max_size=3)),
+                       st.tuples(st.just("m"), st.just(True), st.lists(st.tuples(skey, scalar), max_size=2)))
+    alias = st.integers(0, 40).map(lambda n: ("a", n))
+    holder = st.one_of(
+        st.tuples(st.sampled_from(["objs", "objs", "obj"]), st.booleans(), st.tuples(st.tuples(skey, shared), st.tuples(skey, alias)).map(list)),
+        st.tuples(st.sampled_from(["objs", "obj"]), st.booleans(), st.tuples(st.tuples(skey, shared), st.tuples(skey, alias)).map(list), st.just("y")),
+        st.tuples(st.just("q"), st.booleans(), st.tuples(shared, alias, st.tuples(st.just("objs"), st.just(False), st.tuples(st.tuples(skey, alias)).map(list))).map(list)))
+    rec = st.one_of(st.tuples(st.just("q"), st.just(True), st.tuples(alias, scalar).map(list)),
+                    st.tuples(st.just("m"), st.just(True), st.tuples(st.tuples(skey, alias)).map(list)),
+                    st.tuples(st.just("q"), st.just(True), st.tuples(scalar, st.tuples(st.just("m"), st.just(False), st.tuples(st.tuples(skey, alias)).map(list))).map(list)))
+    docs = st.one_of(st.tuples(holder, rec).map(list), st.tuples(holder, rec, holder).map(list), st.tuples(graphs(6), holder, rec).map(list))
+    return st.tuples(docs, st.booleans(), st.none())
+
+
 def illformed_cases():
     defect = st.tuples(st.sampled_from(["forward", "crossdoc", "duplicate", "selfkey"]), st.integers(0, 30))
     return st.tuples(st.lists(graphs(8), min_size=1, max_size=2), st.booleans(), defect)
@@ -579,7 +600,8 @@ def illformed_cases():
 
 def arms(tier):
     return [Arm("wellformed", eval_case, wellformed_cases, quick=20000, thorough=400000),
-            Arm("illformed", eval_case, illformed_cases, quick=8000, thorough=150000)]
+            Arm("illformed", eval_case, illformed_cases, quick=8000, thorough=150000),
+            Arm("stateful-then-recursive", eval_case, stateful_then_recursive_cases, quick=3000, thorough=100000)]
 
 
 REQUIRED_CLASSES = ["yamlobject-instance", "delivery:text-stream-in-pieces", "delivery:byte-stream-in-pieces", "alias-to-container", "alias-to-finished-container", "alias-to-ancestor", "alias-to-scalar", "defect:undefined-alias", "defect:cross-document-alias",
